@@ -690,6 +690,7 @@ def pick_value(r, ty, want_bad, avoid, isa, typ):
     """A field value v (relative to base for pcrel, absolute for abs) and its class tag."""
     lo, hi, st = ty.glo, ty.ghi, ty.gstep
     if not want_bad:
+        lo, hi = -((-lo) // st) * st, hi - hi % st       # the window in multiples of the generator's step
         k = r.random()
         if k < 0.22:
             return hi - st * r.choice([0, 0, 1, 2, 3]), "edge-hi"
@@ -969,6 +970,8 @@ def gen_case(r, isa, car, avoid, idx):
                     continue
                 if ty.kind != "part" and ty.representable(S, A, I, F) == bool(want_bad):
                     continue      # the drawn value must be on the intended side of the type's range
+                if ty.kind != "part" and not want_bad and not ty.glo <= ty.value(S, A, I, F) <= ty.ghi:
+                    continue      # ... and inside the window the generator is narrowed to (adr/ldr: +-4 KiB)
                 break
             else:
                 v = None
